@@ -92,12 +92,14 @@ def main():
         if v is None:
             unparsed.append(sid)
             continue
-        strict, proj, mon = v
+        strict, proj, mon, monk = v
         if P.nontrivial(s, res[sid]):
             ntriv.add(P.signature(s))
         if not mon:
+            # a failure is a known finding only if the monitor relaxed by the listed classes accepts the
+            # observation and the scenario belongs to a class listed in known_findings.txt
             cls = P.known_class(s, res[sid]) if hasattr(P, "known_class") else None
-            if cls and cls in known:
+            if monk and cls and cls in known:
                 known_hits.setdefault(cls, []).append(sid)
             else:
                 mon_fail.append(sid)
